@@ -138,6 +138,8 @@ def _tools():
     T["takewhile"] = (1, 0, lambda S, n: A.takewhile(always, S[0]), "iter", {})
     T["filterfalse"] = (1, 0, lambda S, n: A.filterfalse(lambda x: x.key % 3 == 0, S[0]), "iter", {})
     T["islice"] = (1, 0, lambda S, n: A.islice(S[0], 5, None, 3), "iter", {})
+    T["islice_bigstart"] = (1, 0, lambda S, n: A.islice(S[0], n // 2, None, 2), "iter", {})
+    T["islice_window"] = (1, 0, lambda S, n: A.islice(S[0], n // 3, n - 5, 3), "iter", {})
     T["pairwise"] = (1, 1, lambda S, n: A.pairwise(S[0]), "iter", {})
     T["starmap"] = (1, 0, lambda S, n: A.starmap(lambda a, b: a.key + b.key, S[0]), "iter", {"tuples": True})
     T["zip_longest"] = (2, 0, lambda S, n: A.zip_longest(*S), "iter", {"uneven": True})
